@@ -191,7 +191,7 @@ func (c *Chain) DumpState(height int64, contracts [][]byte) (*State, error) {
 
 func (c *Chain) queryQuiet(path string, data []byte, height int64) (uint32, []byte) {
 	defer func() { _ = recover() }()
-	r := c.App.Query(abciQuery(path, data, height))
+	r := c.api().Query(abciQuery(path, data, height))
 	return r.Code, r.Value
 }
 
